@@ -38,6 +38,7 @@ RULES = {
     "singleton_not_sync": ["not_sync"],
     "singleton_not_send_sync": ["not_send", "not_sync"],
     "singleton_by_value": ["singleton_by_value"],
+    "singleton_by_value_generic": ["singleton_by_value"],   # the by-value consumer is a generic constructor pavexc instantiates
     "mut_singleton": ["mut_singleton"],
     "mut_transient": ["mut_transient"],
     "mut_cloneable_request": ["mut_cloneable"],
@@ -295,6 +296,8 @@ def render_extras(spec):
     items = ["#[allow(unused_imports)] use pavex::request::path::PathParams;"]
     for ty in x["types"]:
         n = ty["name"]
+        if ty.get("noemit"):
+            continue   # an instantiation of a generic type: known to the abstract database only
         if ty.get("fields") is not None:
             items.append("#[PathParams] pub struct %s { %s }" % (n, ", ".join("pub %s: u32" % f for f in ty["fields"])))
             continue
@@ -305,8 +308,12 @@ def render_extras(spec):
             items.append("%spub struct %s { pub id: u64, pub p: std::marker::PhantomData<%s> }" % (der, n, marker))
         else:
             items.append("%spub struct %s { pub id: u64 }" % (der, n))
+    items += list(x.get("raw", []))
     for c in x["comps"]:
         n = c["name"]
+        if c.get("rust"):
+            items.append(c["rust"])   # rendered by the rule itself (generic constructors); `ins`/`out` describe the instantiation
+            continue
         params = ", ".join(_xparam(k, r, m) for k, (r, m) in enumerate(c["ins"]))
         if c["kind"] == "ctor":
             life = {"request": "request_scoped", "singleton": "singleton", "transient": "transient"}[c["life"]]
@@ -567,6 +574,28 @@ def _plant(rng, spec, t, place, rule, info, M):
             t.ops[cur].insert(0, xreg(cc))
         info["victim"] = ["x", hx["name"], s]
         info["send_sync"] = [send, sync]
+        return True
+
+    if rule == "singleton_by_value_generic":
+        # never-clone singleton P (the type itself is Clone, so only the policy stands in the way), a generic constructor
+        # `wrap<T>(inner: T) -> XG<T>` and a handler asking for `&XG<P>`: the instantiated constructor moves P
+        x = _x(spec)
+        k = len(x["comps"])
+        sg = new_ctor(spec, "singleton", [], clone=True)
+        inst = "XG%d<T%d>" % (k, sg)
+        x["types"].append({"name": inst, "clone": False, "copy": False, "send": True, "sync": True, "fields": None, "noemit": True})
+        x.setdefault("raw", []).append("pub struct XG%d<T> { pub id: u64, pub inner: T }" % k)
+        base = rng.randrange(len(t.parent))
+        s_sg, s_gen = rng.choice(t.anc(base)), rng.choice(t.anc(base))
+        gc = xcomp(spec, "ctor", out=inst, life=rng.choice(["request", "transient"]), ins=[[sg, "val"]])
+        gc["rust"] = ("#[pavex::%s(id = \"__MODU___%s\")]\npub fn %s<T>(a0: T) -> XG%d<T> { XG%d { id: 0, inner: a0 } }"
+                      % ({"request": "request_scoped", "transient": "transient"}[gc["life"]], gc["name"].upper(), gc["name"], k, k))
+        t.ops[s_sg].insert(0, ["ctor", sg])
+        place[("c", sg)] = s_sg
+        t.ops[s_gen].insert(0, xreg(gc))
+        hx = xcomp(spec, "handler", methods=["GET"], path="/%s/generic" % M, ins=[[inst, "ref"]])
+        t.ops[base].append(xreg(hx))
+        info["victim"] = None
         return True
 
     if rule == "singleton_by_value":
